@@ -386,7 +386,7 @@ Definition evict (now keep : Z) (t : list entry) : list entry :=
   if zlen t <=? SSRC_CONTEXT_HIGH_WATERMARK then t
   else filter (fun e => (en_ssrc e =? keep) || (now - en_used e <? SSRC_INACTIVITY_EVICT_SECS)) t.
 
-(* entry(ssrc).or_insert(SrtpContext::new(..)?), last_used = now *)
+(* sending side: evict, then entry(ssrc).or_insert(SrtpContext::new(..)?), last_used = now *)
 Definition acquire (c : crypto) (p : SrtpProfile) (k : bytes * bytes) (now ssrc : Z) (t : list entry)
   : option (ctx * list entry) :=
   let t1 := evict now ssrc t in
@@ -408,12 +408,27 @@ Definition sess_protect_rtp (c : crypto) (s : session) (now : Z) (p : rtp) : res
   | Some (x, t1) => let '(r, x') := protect c x p in (r, set_tx s (store (mkEntry ssrc x' now) t1))
   end.
 
-Definition sess_unprotect_rtp (c : crypto) (s : session) (now : Z) (sp : spkt) : res rtp * session :=
-  let ssrc := h_ssrc (sp_hdr sp) in
-  match acquire c (s_prof s) (s_rxk s) now ssrc (s_rx s) with
-  | None => (Err EUnsupported, set_rx s (evict now ssrc (s_rx s)))
-  | Some (x, t1) => let '(r, x') := unprotect c x sp in (r, set_rx s (store (mkEntry ssrc x' now) t1))
+(* the context a session would use for an SSRC: the stored one, else a fresh one *)
+Definition effective (c : crypto) (p : SrtpProfile) (k : bytes * bytes) (ssrc : Z) (t : list entry) : option ctx :=
+  match lookup ssrc t with
+  | Some e => Some (en_ctx e)
+  | None => ctx_new c ssrc p (fst k) (snd k)
   end.
+
+(* SrtpSession::with_rx_context: the operation runs on the stored context, or on a temporary fresh
+   one for an unknown SSRC; only when it succeeds is the (new) context stored with last_used = now
+   and are stale contexts evicted.  Any failure leaves the session exactly as it was. *)
+Definition with_rx {A : Type} (c : crypto) (s : session) (now ssrc : Z) (op : ctx -> res A * ctx)
+  : res A * session :=
+  match effective c (s_prof s) (s_rxk s) ssrc (s_rx s) with
+  | None => (Err EUnsupported, s)
+  | Some x =>
+      let '(r, x') := op x in
+      if is_ok r then (r, set_rx s (evict now ssrc (store (mkEntry ssrc x' now) (s_rx s)))) else (r, s)
+  end.
+
+Definition sess_unprotect_rtp (c : crypto) (s : session) (now : Z) (sp : spkt) : res rtp * session :=
+  with_rx c s now (h_ssrc (sp_hdr sp)) (fun x => unprotect c x sp).
 
 Definition rtcp_ssrc (pkt : bytes) : Z := of_be (firstn 4 (skipn 4 pkt)).
 
@@ -427,11 +442,7 @@ Definition sess_protect_rtcp (c : crypto) (s : session) (now : Z) (pkt : bytes) 
 
 Definition sess_unprotect_rtcp (c : crypto) (s : session) (now : Z) (pkt : bytes) : res bytes * session :=
   if zlen pkt <? SESSION_RTCP_MIN_PROTECTED then (Err ETooShort, s) else
-  let ssrc := rtcp_ssrc pkt in
-  match acquire c (s_prof s) (s_rxk s) now ssrc (s_rx s) with
-  | None => (Err EUnsupported, set_rx s (evict now ssrc (s_rx s)))
-  | Some (x, t1) => let '(r, x') := unprotect_rtcp c x pkt in (r, set_rx s (store (mkEntry ssrc x' now) t1))
-  end.
+  with_rx c s now (rtcp_ssrc pkt) (fun x => unprotect_rtcp c x pkt).
 
 (* ------------------------------------------------------------------ setup_srtp key split
    (src/peer_connection.rs): exporter output = client_key || server_key || client_salt || server_salt *)
@@ -448,3 +459,79 @@ Definition key_split (is_client : bool) (code : option Z) (mat : bytes)
   let cs := slice (2 * kl) (2 * kl + sl) mat in
   let ss := slice (2 * kl + sl) (2 * kl + 2 * sl) mat in
   if is_client then ((ck, cs), (sk, ss)) else ((sk, ss), (ck, cs)).
+
+(* ------------------------------------------------------------------ session histories
+   operations of a session, their per-(direction, SSRC) key, one step and whole runs; and the same
+   operation applied to a single context (with the session's SRTCP length guards), used to state
+   that a session is the product of independent per-SSRC contexts. *)
+Inductive sop : Set :=
+| SProtRtp (p : rtp) | SUnprotRtp (sp : spkt) | SProtRtcp (pkt : bytes) | SUnprotRtcp (pkt : bytes).
+Inductive sout : Set := OTx (r : res bytes) | ORxRtp (r : res rtp) | ORxRtcp (r : res bytes).
+Definition skey : Set := (bool * Z)%type.          (* (sending side?, SSRC) *)
+Definition skey_eqb (a b : skey) : bool := Bool.eqb (fst a) (fst b) && (snd a =? snd b).
+
+Definition sop_key (o : sop) : skey :=
+  match o with
+  | SProtRtp p => (true, h_ssrc (r_hdr p))
+  | SUnprotRtp sp => (false, h_ssrc (sp_hdr sp))
+  | SProtRtcp pkt => (true, rtcp_ssrc pkt)
+  | SUnprotRtcp pkt => (false, rtcp_ssrc pkt)
+  end.
+
+Definition sess_step (c : crypto) (s : session) (now : Z) (o : sop) : sout * session :=
+  match o with
+  | SProtRtp p => let '(r, s') := sess_protect_rtp c s now p in (OTx r, s')
+  | SUnprotRtp sp => let '(r, s') := sess_unprotect_rtp c s now sp in (ORxRtp r, s')
+  | SProtRtcp pkt => let '(r, s') := sess_protect_rtcp c s now pkt in (OTx r, s')
+  | SUnprotRtcp pkt => let '(r, s') := sess_unprotect_rtcp c s now pkt in (ORxRtcp r, s')
+  end.
+
+Fixpoint sess_run (c : crypto) (s : session) (l : list (Z * sop)) : list (skey * sout) * session :=
+  match l with
+  | [] => ([], s)
+  | (now, o) :: r => let '(out, s1) := sess_step c s now o in
+                     let '(outs, s2) := sess_run c s1 r in ((sop_key o, out) :: outs, s2)
+  end.
+
+Definition ctx_step (c : crypto) (x : ctx) (o : sop) : sout * ctx :=
+  match o with
+  | SProtRtp p => let '(r, x') := protect c x p in (OTx r, x')
+  | SUnprotRtp sp => let '(r, x') := unprotect c x sp in (ORxRtp r, x')
+  | SProtRtcp pkt => if zlen pkt <? SESSION_RTCP_MIN_PLAIN then (OTx (Err ETooShort), x)
+                     else let '(r, x') := protect_rtcp c x pkt in (OTx r, x')
+  | SUnprotRtcp pkt => if zlen pkt <? SESSION_RTCP_MIN_PROTECTED then (ORxRtcp (Err ETooShort), x)
+                       else let '(r, x') := unprotect_rtcp c x pkt in (ORxRtcp r, x')
+  end.
+
+Fixpoint ctx_run (c : crypto) (x : ctx) (l : list sop) : list sout * ctx :=
+  match l with
+  | [] => ([], x)
+  | o :: r => let '(out, x1) := ctx_step c x o in let '(outs, x2) := ctx_run c x1 r in (out :: outs, x2)
+  end.
+
+(* the effective context of a (direction, SSRC) pair *)
+Definition eff (c : crypto) (s : session) (k : skey) : option ctx :=
+  if fst k then effective c (s_prof s) (s_txk s) (snd k) (s_tx s)
+  else effective c (s_prof s) (s_rxk s) (snd k) (s_rx s).
+
+(* table slots needed once `ssrc` is present *)
+Definition slots (ssrc : Z) (t : list entry) : Z :=
+  zlen t + match lookup ssrc t with Some _ => 0 | None => 1 end.
+
+(* the step runs without eviction pressure: the sending table is checked before the insert
+   (evict_stale_tx), the receiving table after it (with_rx_context) *)
+Definition step_calm (s : session) (o : sop) : Prop :=
+  if fst (sop_key o) then zlen (s_tx s) <= SSRC_CONTEXT_HIGH_WATERMARK
+  else slots (snd (sop_key o)) (s_rx s) <= SSRC_CONTEXT_HIGH_WATERMARK.
+
+Fixpoint calm (c : crypto) (s : session) (l : list (Z * sop)) : Prop :=
+  match l with
+  | [] => True
+  | (now, o) :: r => step_calm s o /\ calm c (snd (sess_step c s now o)) r
+  end.
+
+(* sub-history of one (direction, SSRC) pair *)
+Definition sub_ops (k : skey) (l : list (Z * sop)) : list sop :=
+  map snd (filter (fun no => skey_eqb (sop_key (snd no)) k) l).
+Definition sub_outs (k : skey) (outs : list (skey * sout)) : list sout :=
+  map snd (filter (fun ko => skey_eqb (fst ko) k) outs).
